@@ -51,6 +51,11 @@ pub enum Order {
     TargetReset,
     /// nothing listens on the target port
     TargetPortClosed,
+    /// like ClientHalfCloseFirst, but the target does not read until the client's upload has been blocked for a while
+    /// (every buffer on the way is full and the sender's flow-control window is exhausted), then reads everything
+    TargetStalls,
+    /// like TargetHalfCloseFirst, but the client does not read until the target's writer has been blocked for a while
+    ClientStalls,
 }
 
 #[derive(Clone, Debug, Hash, PartialEq, Eq, Serialize, Deserialize)]
@@ -72,6 +77,8 @@ pub struct TcpCase {
 #[derive(Clone, Debug)]
 struct TScript {
     conn: Conn,
+    /// set by the writing side of a *Stalls order once it has been blocked (or is done): the stalled reader starts
+    go: Arc<std::sync::atomic::AtomicBool>,
     /// filled by the target: (bytes verified from the client, saw EOF, error)
     result: Option<(usize, bool, Option<String>)>,
 }
@@ -98,13 +105,25 @@ async fn free_port() -> u16 {
     l.local_addr().unwrap().port()
 }
 
+/// a writer that makes no progress for this long counts as blocked by back-pressure
+const BLOCKED_AFTER: Duration = Duration::from_millis(300);
+
+async fn wait_flag(flag: &std::sync::atomic::AtomicBool) {
+    for _ in 0..12_000 {
+        if flag.load(Ordering::SeqCst) {
+            return;
+        }
+        tokio::time::sleep(Duration::from_millis(5)).await;
+    }
+}
+
 async fn target_conn(mut s: TcpStream, reg: Arc<Mutex<HashMap<u64, TScript>>>) {
     let mut tok = [0u8; 8];
     if s.read_exact(&mut tok).await.is_err() {
         return;
     }
     let token = u64::from_be_bytes(tok);
-    let Some(script) = reg.lock().unwrap().get(&token).map(|t| t.conn.clone()) else { return };
+    let Some((script, go)) = reg.lock().unwrap().get(&token).map(|t| (t.conn.clone(), t.go.clone())) else { return };
     let c = script;
     let n1 = c.n_c2t as usize;
     let n2 = c.n_t2c as usize;
@@ -144,15 +163,26 @@ async fn target_conn(mut s: TcpStream, reg: Arc<Mutex<HashMap<u64, TScript>>>) {
         }
         (rd, got, eof, err)
     };
+    let go_w = go.clone();
     let write_all = move |mut wr: tokio::net::tcp::OwnedWriteHalf, chunk: usize| async move {
         let mut off = 0;
         while off < n2 {
             let n = chunk.max(1).min(n2 - off);
-            if wr.write_all(&payload(token, 1, off, n)).await.is_err() {
+            let data = payload(token, 1, off, n);
+            let mut w = std::pin::pin!(wr.write_all(&data));
+            let r = match tokio::time::timeout(BLOCKED_AFTER, &mut w).await {
+                Ok(r) => r,
+                Err(_) => {
+                    go_w.store(true, Ordering::SeqCst); // blocked: the stalled reader may start
+                    w.await
+                }
+            };
+            if r.is_err() {
                 break;
             }
             off += n;
         }
+        go_w.store(true, Ordering::SeqCst);
         wr
     };
     match c.order {
@@ -162,11 +192,18 @@ async fn target_conn(mut s: TcpStream, reg: Arc<Mutex<HashMap<u64, TScript>>>) {
             let mut wr = write_all(wr, c.chunk_t as usize).await;
             wr.shutdown().await.ok();
         }
-        Order::TargetHalfCloseFirst => {
+        Order::TargetHalfCloseFirst | Order::ClientStalls => {
             let mut wr = write_all(wr, c.chunk_t as usize).await;
             wr.shutdown().await.ok();
             let (_rd, got, eof, err) = read_all(rd, None).await;
             set((got, eof, err));
+        }
+        Order::TargetStalls => {
+            wait_flag(&go).await;
+            let (_rd, got, eof, err) = read_all(rd, None).await;
+            set((got, eof, err));
+            let mut wr = write_all(wr, c.chunk_t as usize).await;
+            wr.shutdown().await.ok();
         }
         Order::Simultaneous => {
             let w = tokio::spawn(async move {
@@ -393,7 +430,8 @@ async fn open_entry(f: &Fx, entry: Entry, port: u16) -> Result<Box<dyn Io>, Stri
 
 async fn run_conn(f: &'static Fx, c: Conn) -> Result<(), (String, String)> {
     let token = TOKEN.fetch_add(1, Ordering::Relaxed).wrapping_mul(0x9E37_79B9_7F4A_7C15);
-    f.registry.lock().unwrap().insert(token, TScript { conn: c.clone(), result: None });
+    let go = Arc::new(std::sync::atomic::AtomicBool::new(false));
+    f.registry.lock().unwrap().insert(token, TScript { conn: c.clone(), go: go.clone(), result: None });
     let e = |sig: &str, msg: String| (sig.to_string(), format!("{:?} {:?} c2t={} t2c={}: {msg}", c.entry, c.order, c.n_c2t, c.n_t2c));
     let port = if c.order == Order::TargetPortClosed { f.closed_port } else { f.tcp_target_port };
     let s = match open_entry(f, c.entry, port).await {
@@ -418,19 +456,31 @@ async fn run_conn(f: &'static Fx, c: Conn) -> Result<(), (String, String)> {
         }
     }
     wr.flush().await.ok();
+    let go_w = go.clone();
     let writer = async move {
         let all = payload(token, 0, 8, n1.saturating_sub(8));
         let mut off = 0;
         let mut k = 0u8;
         while off < all.len() {
             let n = chunk.min(all.len() - off);
-            wr.write_all(&all[off..off + n]).await.map_err(|e| format!("local write: {e}"))?;
+            {
+                let mut w = std::pin::pin!(wr.write_all(&all[off..off + n]));
+                match tokio::time::timeout(BLOCKED_AFTER, &mut w).await {
+                    Ok(r) => r,
+                    Err(_) => {
+                        go_w.store(true, Ordering::SeqCst); // blocked: a stalled target may start reading
+                        w.await
+                    }
+                }
+                .map_err(|e| format!("local write: {e}"))?;
+            }
             off += n;
             k = k.wrapping_add(1);
             if flush_every > 0 && k % flush_every == 0 {
                 wr.flush().await.ok();
             }
         }
+        go_w.store(true, Ordering::SeqCst);
         Ok::<_, String>(wr)
     };
     let reader = |mut rd: tokio::io::ReadHalf<Box<dyn Io>>| async move {
@@ -453,16 +503,19 @@ async fn run_conn(f: &'static Fx, c: Conn) -> Result<(), (String, String)> {
         }
     };
     // the target checks pay(token,0,off) for off >= 8 and the token itself for the first 8 bytes: adjust expectation there
-    let limit = Duration::from_secs(20);
+    let limit = if matches!(c.order, Order::TargetStalls | Order::ClientStalls) { Duration::from_secs(90) } else { Duration::from_secs(20) };
     let fut = async {
         match c.order {
-            Order::ClientHalfCloseFirst => {
+            Order::ClientHalfCloseFirst | Order::TargetStalls => {
                 let mut wr = writer.await?;
                 wr.shutdown().await.map_err(|e| format!("local shutdown: {e}"))?;
                 let (got, eof, err) = reader(rd).await;
                 Ok::<_, String>((got, eof, err))
             }
-            Order::TargetHalfCloseFirst => {
+            Order::TargetHalfCloseFirst | Order::ClientStalls => {
+                if c.order == Order::ClientStalls {
+                    wait_flag(&go).await;
+                }
                 let (got, eof, err) = reader(rd).await;
                 let mut wr = writer.await?;
                 wr.shutdown().await.ok();
@@ -567,7 +620,7 @@ pub fn check_tcp(case: &TcpCase) -> Outcome {
         }
         return Outcome::violation(sig, msg);
     }
-    let half = case.conns.iter().any(|c| matches!(c.order, Order::ClientHalfCloseFirst | Order::TargetHalfCloseFirst) && c.n_c2t > 8 && c.n_t2c > 0);
+    let half = case.conns.iter().any(|c| matches!(c.order, Order::ClientHalfCloseFirst | Order::TargetHalfCloseFirst | Order::TargetStalls | Order::ClientStalls) && c.n_c2t > 8 && c.n_t2c > 0);
     let mut cl = vec![];
     if half {
         cl.push("bidirectional-with-half-close");
@@ -580,6 +633,9 @@ pub fn check_tcp(case: &TcpCase) -> Outcome {
     }
     if case.conns.iter().any(|c| c.n_c2t > 300_000 || c.n_t2c > 300_000) {
         cl.push("several-windows");
+    }
+    if case.conns.iter().any(|c| matches!(c.order, Order::TargetStalls | Order::ClientStalls)) {
+        cl.push("stalled-consumer-window-exhausted");
     }
     Outcome::pass(half || case.conns.len() >= 2, cl)
 }
@@ -790,7 +846,7 @@ fn conn() -> impl Strategy<Value = Conn> {
 }
 
 pub fn run(ctx: &Ctx, rep: &mut Report) {
-    rep.rule = "one real client (client_main_inner) and one real server (run_listener) on loopback with remotes for every entry kind. TCP cases = 1-8 concurrent connections, each: entry {fixed TCP remote, Unix-socket remote, SOCKS4, SOCKS4a by name, SOCKS5 IPv4/domain/IPv6, HTTP CONNECT} x payload sizes each way 0..3 MB in generated chunkings/flushes x close order {client half-close first, target half-close first, simultaneous, target reset, target port closed}; \
+    rep.rule = "one real client (client_main_inner) and one real server (run_listener) on loopback with remotes for every entry kind. TCP cases = 1-8 concurrent connections, each: entry {fixed TCP remote, Unix-socket remote, SOCKS4, SOCKS4a by name, SOCKS5 IPv4/domain/IPv6, HTTP CONNECT} x payload sizes each way 0..3 MB in generated chunkings/flushes x close order {client half-close first, target half-close first, simultaneous, target reset, target port closed}, plus a stalled-consumer family (40+ MB one way while the receiving end does not read until the sender has been blocked for 300 ms, so that the sending bridge exhausts its flow-control window); \
                 content is a function of (connection token, direction, offset). UDP cases = 1-6 concurrent local sockets (plain UDP remote or SOCKS5 association with IPv4/domain/IPv6 target addresses, one association addressing two UDP services on the same host), datagram sizes {0,1,2,3,4,512,1400,8000,60000}, target replying 0-3 tagged copies. \
                 Oracle: both directions byte-exact and complete with EOF propagated in each close order, closed (not hanging) on target reset/refusal (20 s limit, hang verdicts confirmed by a re-run); UDP replies only on the socket of the originating client, from the address it sent to, payload unmodified, no duplicates, SOCKS5 replies prefixed by a header an independent RFC 1928 parser accepts; \
                 loss tolerated only after three failed exchanges. Non-trivial = bidirectional traffic with a half-close, or >= 2 concurrent clients, or a UDP payload < 4 bytes. Distinct = distinct case value."
@@ -811,6 +867,22 @@ pub fn run(ctx: &Ctx, rep: &mut Report) {
             let entry = ENTRIES[(i % 8) as usize];
             let order = [Order::ClientHalfCloseFirst, Order::TargetHalfCloseFirst, Order::Simultaneous, Order::TargetReset, Order::TargetPortClosed][(i / 8) as usize];
             TcpCase { conns: vec![Conn { entry, order, n_c2t: 3000, n_t2c: 5000, chunk_c: 700, chunk_t: 900, flush_every: 1 }] }
+        },
+        check_tcp,
+    );
+    // a consumer that stops reading until the sender is blocked by back-pressure: every buffer between the two ends fills up
+    // and the sending bridge runs out of flow-control credit in the middle of the transfer
+    let stalls = ctx.tier.pick(8, 48);
+    ctx.enumerate(
+        rep,
+        "tcp-stalled-consumer",
+        stalls,
+        4,
+        |i| {
+            let entry = ENTRIES[((i / 2) % 8) as usize];
+            let big = 40_000_000 + (i as u32 / 16) * 3_000_000;
+            let (order, n_c2t, n_t2c) = if i % 2 == 0 { (Order::TargetStalls, big, 70_000) } else { (Order::ClientStalls, 70_000, big) };
+            TcpCase { conns: vec![Conn { entry, order, n_c2t, n_t2c, chunk_c: 16_384, chunk_t: 65_536, flush_every: 0 }] }
         },
         check_tcp,
     );
